@@ -20,6 +20,8 @@ async fn verif_replay_template_subst() {
         // exactly one template: the typed value
         (json!("{{ a }}"), json!(1)), (json!("{{a}}"), json!(1)), (json!("{{ b }}"), json!("two")), (json!("{{ c }}"), json!(true)), (json!("{{ o }}"), json!({"k": 5})),
         (json!("{{ a + 1 }}"), json!(2)), (json!("{{ o.k }}"), json!(5)),
+        // one template whose expression contains `}}` itself (a nested object literal)
+        (json!("{{ ({u:{id:a,l:o.k}}) }}"), json!({"u": {"id": 1, "l": 5}})), (json!("{{ JSON.stringify({x:{y:a}}) }}"), json!("{\"x\":{\"y\":1}}")),
         // no template: verbatim
         (json!("plain text"), json!("plain text")), (json!(""), json!("")), (json!("{ a }"), json!("{ a }")), (json!("a }} b {{"), json!("a }} b {{")), (json!(7), json!(7)), (json!(null), json!(null)),
         // one template inside text
